@@ -21,7 +21,7 @@ def _args(style, pairs):
 def _fft1(name, real_in, real_out):
     @spec(name, "F")
     def s(ch, T, name=name):
-        shape = ch.choose("shape", [(4,), (2, 4), (4, 2), (2, 2, 4), (3,), (6,)])
+        shape = ch.choose("shape", [(4,), (2, 4), (4, 2), (2, 2, 4), (3,), (6,), (3, 3), (4, 4), (5, 4), (3, 2)])
         nd = len(shape)
         axis = ch.choose("axis", [None] + A.int_axes(nd))
         L = shape[-1 if axis is None else axis]
@@ -49,7 +49,7 @@ _fft1("irfft", False, True)
 def _fftn(name, two):
     @spec(name, "F")
     def s(ch, T, name=name, two=two):
-        shape = ch.choose("shape", [(2, 4), (4, 2), (2, 2, 4), (4, 4)] + ([] if two else [(4,)]))
+        shape = ch.choose("shape", [(2, 4), (4, 2), (2, 2, 4), (4, 4), (3, 3), (5, 4)] + ([] if two else [(4,)]))
         nd = len(shape)
         ax_opts = [None, (-2, -1), (0, 1), (-1, -2), (1, 0), (-1,), (0,), (0, 0), (-1, -1), (0, -1)]
         if nd >= 3:
